@@ -645,6 +645,7 @@ type ContractFile struct {
 	Axioms    []*Lemma
 	Lemmas    []*Lemma
 	Invs      []*Lemma
+	Monitors  []*Monitor
 	SMT       []string // raw prelude lines
 	SpecTypes map[string]string
 	Ghosts    []*GhostField
@@ -658,7 +659,21 @@ var clauseKeywords = map[string]bool{
 	"pure": true, "inline": true, "reveal": true, "bind": true, "let": true, "mode": true, "callsite": true, "unrollall": true, "fresh": true,
 }
 var topKeywords = map[string]bool{
-	"func": true, "spec": true, "axiom": true, "lemma": true, "invariant": true, "smt": true, "ghost": true, "bvtype": true, "bvtypes": true, "const": true,
+	"func": true, "spec": true, "axiom": true, "lemma": true, "invariant": true, "monitor": true, "smt": true, "ghost": true, "bvtype": true, "bvtypes": true, "const": true,
+}
+
+// Monitor: package-level state guarded by a mutex.
+//
+//	monitor <mutex> guards g1, g2 invariant <expr> [rely <two-state expr>]
+type Monitor struct {
+	Mutex  string
+	Guards []string
+	Inv    Expr
+	InvTxt string
+	Rely   Expr // two-state: old(...) is the state when the lock was last released/observed
+	RelyTxt string
+	Line   string
+	Pkg    string
 }
 
 // parseContractLines parses the //@-stripped lines of one contract file.
@@ -753,6 +768,35 @@ func parseContractLines(pkg, path string, lines []string, linenos []int) (*Contr
 			default:
 				return nil, fail(fmt.Errorf("spec type|func expected"))
 			}
+		case w == "monitor":
+			cur = nil
+			// monitor M guards a, b invariant E [rely R]
+			gi := strings.Index(rest, " guards ")
+			ii := strings.Index(rest, " invariant ")
+			if gi < 0 || ii < 0 {
+				return nil, fail(fmt.Errorf("monitor M guards a, b invariant E [rely R]"))
+			}
+			m := &Monitor{Mutex: strings.TrimSpace(rest[:gi]), Line: where, Pkg: pkg}
+			for _, g := range strings.Split(rest[gi+len(" guards "):ii], ",") {
+				m.Guards = append(m.Guards, strings.TrimSpace(g))
+			}
+			invTxt := rest[ii+len(" invariant "):]
+			if ri := strings.Index(invTxt, " rely "); ri >= 0 {
+				m.RelyTxt = strings.TrimSpace(invTxt[ri+len(" rely "):])
+				invTxt = invTxt[:ri]
+				e, err := parseExpr(m.RelyTxt)
+				if err != nil {
+					return nil, fail(err)
+				}
+				m.Rely = e
+			}
+			m.InvTxt = strings.TrimSpace(invTxt)
+			e, err := parseExpr(m.InvTxt)
+			if err != nil {
+				return nil, fail(err)
+			}
+			m.Inv = e
+			cf.Monitors = append(cf.Monitors, m)
 		case w == "axiom" || w == "lemma" || w == "invariant":
 			cur = nil
 			k := strings.Index(rest, ":")
